@@ -58,6 +58,10 @@ pub fn gen_kkt(t: &mut Tape) -> KktCase {
                     offs[c].push((r, v));
                     rowsum[r] += f64::abs(v);
                     rowsum[c] += f64::abs(v);
+                } else if (missing[r] || missing[c]) && t.chance(0.4) {
+                    // structural (explicit zero) off-diagonal entry next to a missing diagonal: a common
+                    // "pattern template" input, and still positive semidefinite
+                    offs[c].push((r, 0.0));
                 }
             }
         }
@@ -399,6 +403,39 @@ pub fn check_kkt(c: &KktCase, ctx: &mut Ctx) -> CheckResult {
                 sblk[i][j], -h[i][j], c.cones
             );
         }
+    }
+    // (c') the same after switching the (used) cones back to identity scaling, as a re-solve does
+    if sym_all {
+        comp.set_identity_scaling();
+        let ok = catch(|| solver.update(&comp, &settings)).map_err(|p| format!("KKT update panicked: {p}"))?;
+        ensure!(ok, "KKT update failed under identity scaling");
+        let snap2 = solver.verif_snapshot();
+        let kd2 = dense_sym(&snap2);
+        let mut h2 = zeros(m, m);
+        for j in 0..m {
+            let mut e = vec![0.0; m];
+            e[j] = 1.0;
+            let mut y = vec![0.0; m];
+            let mut w = vec![0.0; m];
+            comp.mul_Hs(&mut y, &e, &mut w);
+            for i in 0..m {
+                h2[i][j] = y[i];
+            }
+        }
+        for i in 0..m {
+            for j in 0..m {
+                let mut sij = kd2[n + i][n + j];
+                for l in 0..p {
+                    sij -= kd2[n + i][n + m + l] * kd2[n + j][n + m + l] / kd2[n + m + l][n + m + l];
+                }
+                ensure!(
+                    (sij + h2[i][j]).abs() <= 1e-12 * (1.0 + h2[i][j].abs()),
+                    "live KKT under identity scaling (after a previous scaling update): cone block entry ({i},{j}) is {:e} but -H = {:e}; cones {:?}",
+                    sij, -h2[i][j], c.cones
+                );
+            }
+        }
+        ctx.label("identity-scaling-after-use");
     }
     // (d) inertia of the regularised matrix agrees with the recorded signs.  (A dense LDL' in a fixed order is
     // numerically meaningless when P is singular, so the signature is read from a symmetric eigen-decomposition.)
